@@ -130,6 +130,7 @@ class DepAnalysis:
         self.depth = 0
         self.none_params = set(none_params)  # mode specialisation: these parameters are None
         self.functions_seen = set()
+        self.compare_sides = {}  # (lineno, normalised text) -> (deps(left), deps(right)) for two-sided comparisons
 
     def analyse(self, fi, param_values=None):
         a = fi.node.args
@@ -382,6 +383,16 @@ class _DWalker(FlowWalker):
                 kc = const_value(k)
                 d = d.with_item(kc if isinstance(kc, (str, int)) else None, self.ev(v, env))
         return d
+
+    def ev_Compare(self, node, env):
+        l = flat(self.ev(node.left, env))
+        out = l
+        rs = EMPTY
+        for c in node.comparators:
+            rs |= flat(self.ev(c, env))
+        if self.is_entry and len(node.comparators) == 1:
+            self.an.compare_sides[(node.lineno, norm(node))] = (clean(l), clean(rs))
+        return out | rs
 
     def ev_IfExp(self, node, env):
         r = self.none_test(node.test, env)
